@@ -169,8 +169,8 @@ def reservoir_bfs(acc, tier, i, n):
 
 # ---- (b) counting ---------------------------------------------------------------------------------
 
-ROUTES = ['ok', 'redir', 'raise403', 'ret404', 'boom', 'nb', 'catch', 'nf', 'mna']
-STEPS = ROUTES + ['read', 'reset']
+ROUTES = ['ok', 'redir', 'raise403', 'ret404', 'boom', 'nb', 'catch', 'nf', 'mna', 'reroute']
+STEPS = ROUTES + ['read', 'reset', 'other-app', 'other-reset']
 
 
 class StatsWorld(object):
@@ -201,9 +201,19 @@ class StatsWorld(object):
 
         def catch(x):
             return Response('caught %s' % x)
+
+        def target(environ, start_response):
+            start_response('200 OK', [('Content-Type', 'text/plain')])
+            return [b'rerouted']
+
+        def reroute():
+            from clastic.application import RerouteWSGI
+            raise RerouteWSGI(target)
         self.app = Application([('/ok', ok), ('/redir', redir), ('/raise403', raise403), ('/ret404', ret404),
-                                ('/boom', boom), ('/nb', nb), ('/stats', create_stats_app()), ('/<x>', catch),
-                                POST('/only/post', ok)], middlewares=[StatsMiddleware()])
+                                ('/boom', boom), ('/nb', nb), ('/reroute', reroute), ('/stats', create_stats_app()),
+                                ('/<x>', catch), POST('/only/post', ok)], middlewares=[StatsMiddleware()])
+        # another application in the same process with its own StatsMiddleware
+        self.other = Application([('/ok', ok), ('/other', ok), ('/stats', create_stats_app())], middlewares=[StatsMiddleware()])
         self.model = {}
 
     def count(self, pattern, key):
@@ -224,6 +234,7 @@ class StatsWorld(object):
                 'catch': ('/zzz', 'GET', 200, [('/<x>', '200')]),
                 'nf': ('/a/b/c', 'GET', 404, [('/<_ignored*>', '404')]),
                 'mna': ('/only/post', 'GET', 405, [('/<_ignored*>', '405')]),
+                'reroute': ('/reroute', 'GET', 200, [('/reroute', 'RerouteWSGI')]),
             }[s]
             res = wsgi.call(app, path, method)
             for p, k in counts:
@@ -232,6 +243,17 @@ class StatsWorld(object):
                 return ('request-raised', '%s raised %r' % (s, res.raised))
             if res.code != expect:
                 return ('status-%s-%s' % (s, res.code), 'request %s answered %s, expected %s' % (s, res.status, expect))
+            return None
+        if s == 'other-app':
+            for p in ('/ok', '/other', '/nowhere'):
+                r = wsgi.call(self.other, p, 'GET')
+                if r.raised is not None:
+                    return ('request-raised', 'other application raised %r' % (r.raised,))
+            return None
+        if s == 'other-reset':
+            r = wsgi.call(self.other, '/stats/reset', 'POST', query='format=json')
+            if r.raised is not None or r.code != 200:
+                return ('other-reset', 'reset of the other application answered %s %r' % (r.status, r.raised))
             return None
         if s == 'read':
             res = wsgi.call(app, '/stats/', 'GET', query='format=json')
@@ -279,20 +301,29 @@ class StatsWorld(object):
             return None
 
 
+STEPS_CORE = ['ok', 'raise403', 'ret404', 'boom', 'nb', 'nf', 'mna', 'read', 'reset']
+
+
+def histories(tier):
+    """Maximal histories: the full alphabet to depth 3 (thorough 4), the core alphabet one step deeper."""
+    d_full = 3 if tier == 'quick' else 4
+    for hist in itertools.product(STEPS, repeat=d_full):
+        yield hist
+    for hist in itertools.product(STEPS_CORE, repeat=d_full + 1):
+        yield hist
+
+
 def counting(acc, tier, i, n):
     depth = 4 if tier == 'quick' else 5
     k = 0
-    for d in range(1, depth + 1):
-        for hist in itertools.product(STEPS, repeat=d):
+    for d in (depth,):
+        for hist in histories(tier):
             k += 1
             if k % n != i:
                 continue
             if k % 200 == i and deadline_passed():
                 acc.extra['cap_hit'] = 1
                 return
-            # only maximal histories need a fresh world: prefixes are checked on the way
-            if d < depth:
-                continue
             w = StatsWorld()
             acc.evaluated += 1
             if any(s in ('boom', 'raise403', 'ret404', 'nb', 'nf', 'mna') for s in hist):
@@ -312,7 +343,7 @@ def counting(acc, tier, i, n):
                 if bad:
                     acc.violation('C19:counting:%s' % bad[0], '%s; history %r + read' % (bad[1], hist),
                                   {'part': 'counting', 'history': list(hist) + ['read']})
-            acc.outcome('counting-history-depth-%d' % d)
+            acc.outcome('counting-history-depth-%d' % len(hist))
             if k % 3001 == i:
                 acc.sample({'history': list(hist)})
 
@@ -356,7 +387,8 @@ def finish(tier, merged, results):
             raise common.InternalError('vacuous: few reservoir states')
     return {'bounds': {'reservoir_ops': 7 if tier == 'quick' else 9, 'capacities': [1, 2, 3], 'resize_to': [1, 2, 3, 4],
                        'random_answers': 'every index 0..total_count at every sampling add',
-                       'counting_history_depth': 4 if tier == 'quick' else 5, 'counting_alphabet': STEPS},
+                       'counting_history_depth': '3 over the full alphabet, 4 over the core alphabet' if tier == 'quick' else '4 / 5',
+                       'counting_alphabet': STEPS, 'counting_core_alphabet': STEPS_CORE},
             'distinct_nontrivial': merged['extra'].get('nontrivial', 0),
             'coverage': {'reservoir_states': merged['outcomes'].get('reservoir-states', 0),
                          'note': 'reservoir states are explored per shard below the depth-1 frontier; a state reachable '
